@@ -65,6 +65,20 @@ def prim_ord(ex, st, callee, args, m):
     return {'lt': ULT(a, b), 'le': ULE(a, b), 'gt': UGT(a, b), 'ge': UGE(a, b)}[o]
 
 
+@model(r'^<&*(%s) as (?:std::cmp::|core::cmp::)?(Ord|PartialOrd)(?:<.*>)?>::(cmp|partial_cmp)$' % _PRIM)
+def prim_cmp(ex, st, callee, args, m):
+    """Ord::cmp / PartialOrd::partial_cmp on primitives: Ordering with discriminants -1/0/1 (partial_cmp: None for NaN)"""
+    a, b = D(ex, args[0]), D(ex, args[1]); t = m.group(1)
+    if is_fp(a): lt, eq = fpLT(a, b), fpEQ(a, b)
+    elif is_bool(a): lt, eq = And(Not(a), b), a == b
+    elif t in SIGNED: lt, eq = a < b, a == b
+    else: lt, eq = ULT(a, b), a == b
+    o = Enum('Ordering', If(lt, BitVecVal(-1, 64), If(eq, BitVecVal(0, 64), BitVecVal(1, 64))), {'Less': [], 'Equal': [], 'Greater': []})
+    if m.group(3) == 'cmp': return o
+    if is_fp(a): return option(Not(Or(fpIsNaN(a), fpIsNaN(b))), o)
+    return some(o)
+
+
 @model(r'^<&?(%s) as (?:std::ops::|core::ops::)?(Add|Sub|Mul|Div|Rem)(?:<&?(?:%s)>)?>::(add|sub|mul|div|rem)$' % (_PRIM, _PRIM))
 def prim_arith(ex, st, callee, args, m):
     """+ - * / % through `&`-forwarding impls; overflow panics per profile (rustc_inherit_overflow_checks), div-by-zero and MIN/-1 always"""
@@ -182,7 +196,7 @@ def num_misc(ex, st, callee, args, m):
     return NotImplemented
 
 
-@model(r'^(?:std::f64::|core::f64::)?<impl f64>::(abs|is_nan|is_infinite|is_finite|min|max|floor|ceil|round|trunc|sqrt|is_sign_negative)$')
+@model(r'^(?:std::f64::|core::f64::)?<impl f64>::(abs|is_nan|is_infinite|is_finite|min|max|floor|ceil|round|trunc|sqrt|is_sign_negative|is_sign_positive|fract|signum|to_bits|from_bits|clamp)$')
 def f64_misc(ex, st, callee, args, m):
     """f64 helper methods with IEEE semantics (min/max ignore a NaN operand)"""
     f = m.group(1); a = args[0]; b = args[1] if len(args) > 1 else None
@@ -198,6 +212,15 @@ def f64_misc(ex, st, callee, args, m):
     if f == 'trunc': return z3.fpRoundToIntegral(z3.RTZ(), a)
     if f == 'round': return z3.fpRoundToIntegral(z3.RNA(), a)
     if f == 'sqrt': return z3.fpSqrt(_RNE, a)
+    if f == 'is_sign_positive': return Not(z3.fpIsNegative(a))
+    if f == 'fract': return fpSub(_RNE, a, z3.fpRoundToIntegral(z3.RTZ(), a))       # self - self.trunc()
+    if f == 'signum': return If(fpIsNaN(a), a, If(z3.fpIsNegative(a), z3.FPVal(-1.0, F64), z3.FPVal(1.0, F64)))
+    if f == 'to_bits': return z3.fpToIEEEBV(a)
+    if f == 'from_bits': return z3.fpBVToFP(a, F64)
+    if f == 'clamp':
+        lo, hi = args[1], args[2]
+        st.path.oblige('no panic: f64::clamp requires min <= max and no NaN bound', And(z3.fpLEQ(lo, hi)), callee); st.path.assume(z3.fpLEQ(lo, hi))
+        return If(fpLT(a, lo), lo, If(fpGT(a, hi), hi, a))
     return NotImplemented
 
 
